@@ -1,6 +1,8 @@
 package chain
 
 import (
+	"os"
+	"strconv"
 	"crypto/sha256"
 	"encoding/binary"
 	"fmt"
@@ -19,6 +21,21 @@ import (
 
 // StepDeadline is the per-step liveness bound (C02); a normal step takes < 5 ms.
 var StepDeadline = 20 * time.Second
+
+func init() {
+	// VERIF_STEP_DEADLINE_S: used by the driver when it re-executes a history whose step overran
+	// the deadline, to tell a slow step on a loaded machine from an unbounded one
+	if v := os.Getenv("VERIF_STEP_DEADLINE_MS"); v != "" { // for testing the driver's re-check path
+		if n, err := strconv.Atoi(v); err == nil && n > 0 {
+			StepDeadline = time.Duration(n) * time.Millisecond
+		}
+	}
+	if v := os.Getenv("VERIF_STEP_DEADLINE_S"); v != "" {
+		if n, err := strconv.Atoi(v); err == nil && n > 0 {
+			StepDeadline = time.Duration(n) * time.Second
+		}
+	}
+}
 
 // HangError is returned by guarded steps that did not finish within StepDeadline.
 type HangError struct{ Step string }
